@@ -43,6 +43,7 @@ var reservedNames = map[string]any{
 	"pass":     nil,
 	"raise":    nil,
 	"return":   nil,
+	"self":     nil,
 	"try":      nil,
 	"while":    nil,
 	"with":     nil,
